@@ -295,6 +295,15 @@ ADDED = {
 ADDED2 = {'C03': " One inductive step of the framing function (`framing_step`): from every PDU boundary of every conversation's stream with a SYMBOLIC fill level, one call of the real _process_incoming consumes exactly one complete PDU or nothing.", 'C05': ' A connection reset by the peer is an event of the alphabet (reads and writes fail).', 'C06': ' A message of 1..40 PDUs handed to a real provider reaches the socket PDU for PDU.', 'C09': ' 120..128 proposed contexts; entity configured with a title different from the called one.', 'C11': ' Peer maximum 0 / boundary values in the reply; classes configured with different transfer-syntax sets.', 'C12': ' Pipelined floods of up to 48 messages with the user not reading (bounded queues are modelled).', 'C13': ' recv(MSG_WAITALL) and connection resets are modelled; requestor-side release collision in the corpus.', 'C16': ' c_find called up to 70 times in a row over live requesters.', 'C18': ' The statuses yielded by the C-MOVE / C-FIND / C-GET users for a symbolic code.', 'C19': ' The release of the C-MOVE sub-association may time out (symbolic).', 'C20': ' Two live requesters alive at once under all 256 schedule words (thorough) / 64 (quick); simultaneous reads with a thread switch right after a read returns.'}
 # fourth session (round five of seeded changes)
 ADDED3 = {
+    'C01': ' A whole A-ASSOCIATE-RQ whose User Identity fields have symbolic UTF-8 contents (nested lengths and the '
+           'decoders that honour them must agree).',
+    'C08': ' Two message objects of one class alive at the same time, sent in either order: each command set describes '
+           'its own message.',
+    'C09': ' One association with several messages on symbolic contexts (same class accepted on two contexts, rejected on '
+           'a third): each served iff its own context was accepted, with that context\'s id and syntax.',
+    'C11': ' The same SOP class configured as SCU and as SCP (proposed on two contexts), results and reply order symbolic.',
+    'C12': ' Unknown PDU types also with the connection reset right behind them (the A-ABORT cannot be written; the user '
+           'is still told, once).',
     'C03': ' Corpus: a long PDU of unknown type with a short PDU right behind it (established association and as the very '
            'first PDU), release collision on the acceptor side, abort by the requesting user.',
     'C04': ' The cells whose action closes the transport connection without writing to it, executed on a connection the '
